@@ -731,10 +731,14 @@ Definition commitment_quote (mk : option stored) (fee_denom : string) (navs : li
             match other_inputs navs conv fee_denom total with
             | None => None
             | Some others =>
-                Some (Some (commitment_fee
+                (* ExchangeFees = sdk.NewCoins(fee coin): a fee of zero (every input converts to less
+                   than 10^-18 of the intermediary denom and is truncated away, or the inputs are
+                   worth nothing) leaves the coin set empty, like "no fee" *)
+                let x := commitment_fee
                   {| ci_fee := amount_of fee_denom total;
                      ci_conv := if String.eqb conv fee_denom then 0 else amount_of conv total;
-                     ci_others := others; ci_tfp := tfp; ci_tfa := tfa; ci_bips := m_bips m |}))
+                     ci_others := others; ci_tfp := tfp; ci_tfa := tfa; ci_bips := m_bips m |} in
+                Some (if x =? 0 then None else Some x)
             end
         end
     end.
